@@ -37,12 +37,12 @@ ASSUMPTIONS = ['correction values are finite or NaN (infinite corrections are ou
                '(checked by the harness against a float64 evaluation); rounding is not verified',
                'the solutions-to-corrections interpolation (C14) is taken as given: in the v4 stream the correction '
                'sensors are read back from the data set',
-               'invert stream tolerance: |corrected - clean| <= 2^-18 * max(|clean|, 1) per component']
+               'invert stream tolerance: |corrected - clean| <= 2^-16 * (1 + number of products) * max(|clean|, 1) per component']
 
 warnings.simplefilter('ignore')
 logging.disable(logging.CRITICAL)
 
-REL_TOL = 2.0 ** -18
+REL_TOL = 2.0 ** -16
 TYPES = ['K', 'B', 'G', 'GPHASE', 'GAMP_PHASE']
 UNITS = [(1, 0), (0, 1), (-1, 0), (0, -1), (1, 1), (1, -1), (-1, 1), (-1, -1)]
 
